@@ -31,6 +31,7 @@ type c17Act struct {
 	R   int    `json:"r,omitempty"`
 	NT  bool   `json:"nt,omitempty"`
 	Cut int    `json:"cut,omitempty"` // 0 = complete; k>0 = power loss after k writes (uc16: before the single write)
+	Rs  bool   `json:"rs,omitempty"`  // with cut>0: snapd is restarted (no reboot) instead of a power loss
 	TB  bool   `json:"tb,omitempty"`  // boot/fw: the one-shot tryboot flag (only the not-scriptable firmware looks at it)
 }
 
@@ -405,6 +406,15 @@ func c17Exec20(t *testing.T, in c17In) vh.Out {
 		if a.Cut > 0 {
 			cut = fmt.Sprintf("(Some %d%%nat)", a.Cut)
 		}
+		// a restart inside a kernel setNext issued while kernel_status is still trying is outside the model
+		// (snapd marks the boot successful first): such a cut is a power loss
+		rs := isOp && a.Cut > 0 && a.Rs && !(a.K == "setk" && e.mbl.BootVars["kernel_status"] == "trying")
+		opTerm := func(o string) string {
+			if rs {
+				return fmt.Sprintf("AOpR %s %d%%nat", o, a.Cut)
+			}
+			return fmt.Sprintf("AOp %s %s", o, cut)
+		}
 		e.cut = a.Cut
 		switch a.K {
 		case "setk", "setb":
@@ -412,7 +422,7 @@ func c17Exec20(t *testing.T, in c17In) vh.Out {
 			if a.K == "setb" {
 				typ, name, ctor = snap.TypeBase, c17BaseName, "SetB"
 			}
-			acts = append(acts, fmt.Sprintf("AOp (%s %s %s) %s", ctor, c17Rev(a.R), vh.CoqBool(a.NT), cut))
+			acts = append(acts, opTerm(fmt.Sprintf("(%s %s %s)", ctor, c17Rev(a.R), vh.CoqBool(a.NT))))
 			bp := boot.Participant(c17Place(name, a.R), typ, e.dev)
 			if bp.IsTrivial() {
 				panic("c17: trivial boot participant")
@@ -429,7 +439,7 @@ func c17Exec20(t *testing.T, in c17In) vh.Out {
 				tags["undo"] = true
 			}
 		case "mark":
-			acts = append(acts, "AOp Mark "+cut)
+			acts = append(acts, opTerm("Mark"))
 			trustedK = append(trustedK, bootedK)
 			trustedB = append(trustedB, bootedB)
 			crashed, err := e.runOp(func() error { return boot.MarkBootSuccessful(e.dev) })
@@ -471,7 +481,11 @@ func c17Exec20(t *testing.T, in c17In) vh.Out {
 			panic("c17: unknown action " + a.K)
 		}
 		if isOp && a.Cut > 0 {
-			running = false
+			if rs {
+				tags["restart"] = true // the re-run is whatever operation comes next in the history
+			} else {
+				running = false
+			}
 			ncuts++
 		}
 	}
@@ -806,6 +820,20 @@ func c17Gen(r *vh.Rand, tier string, n int) []c17In {
 					if op.K != "setb" && cut <= 3 {
 						ins = append(ins, c17In{Cfg: "ns20", K0: 1, B0: 1, Acts: acts})
 					}
+					if cut > 0 && cut <= 3 {
+						// snapd restart instead of the power loss: mark is re-entered first, then the task re-runs
+						or := o
+						or.Rs = true
+						full := op
+						ra := append(append([]c17Act{}, ctx...), or, M, full, B, M, B)
+						ins = append(ins, c17In{Cfg: "uc20", K0: 1, B0: 1, Acts: ra})
+						rb := append(append([]c17Act{}, ctx...), or, full, B, M, B)
+						cfg := "uc20"
+						if op.K != "setb" {
+							cfg = "ns20"
+						}
+						ins = append(ins, c17In{Cfg: cfg, K0: 1, B0: 1, Acts: rb})
+					}
 				}
 			}
 		}
@@ -849,6 +877,8 @@ func c17Gen(r *vh.Rand, tier string, n int) []c17In {
 		for j := range acts {
 			if acts[j].K == "boot" || acts[j].K == "fw" {
 				acts[j].TB = r.Chance(2, 3)
+			} else if acts[j].Cut > 0 {
+				acts[j].Rs = r.Chance(1, 2)
 			}
 		}
 		cfg := "uc20"
